@@ -10,6 +10,7 @@ import Bch.Drive.C17
 import Bch.Drive.C18
 import Bch.Drive.C15
 import Bch.Drive.C08
+import Bch.Drive.C20
 open Bch.Drive
 
 def dispatch (id : String) : Option Runner :=
@@ -30,6 +31,7 @@ def dispatch (id : String) : Option Runner :=
   | "C16" => some C16.run
   | "C15" => some C15.run
   | "C08" => some C08.run
+  | "C20" => some C20.run
   | "C17" => some C17.run
   | "C18" => some C18.run
   | "C19" => some C19.run
